@@ -244,8 +244,10 @@ reg("C19",
 reg("C15",
     gen=lambda seed, tier: (P.gen_confine_programs(G.Rng(seed + 15), N(tier, 40, 400)) +
                             P.gen_extraction_programs(G.Rng(seed + 153), N(tier, 30, 300)) +
-                            P.gen_oddcache_programs()),
+                            P.gen_oddcache_programs() +
+                            [p for p in P.gen_key_matrix_programs(G.Rng(seed + 154)) if p.name.startswith("siblings")]),
     monitors=[lambda rr: (P.mon_oddcache(rr) if "oddcache" in rr.prog.tags else
+                          P.mon_history(rr) if rr.prog.name.startswith("siblings") else
                           P.mon_extraction(rr) if "steps" in rr.prog.tags else P.mon_confine(rr))],
     nontrivial=lambda rr: True,
     rule="programs over 4 hostile keys (path-like, '..', NUL, controls, case / normalisation variants, 4 KiB): writes, "
